@@ -40,13 +40,14 @@ impl InstructionGenerator {
             statements,
             ..
         } = f;
-        // lower bound to A
+        // The counter is assigned after the upper bound and the step have been evaluated,
+        // because they can refer to its previous value, e.g. `FOR I = 1 TO I + 5`.
+        // lower bound to A and then on the value stack
         self.generate_expression_instructions_casting(
             lower_bound,
             counter_var_name.expression_type(),
         );
-        // A to variable
-        self.store_counter(&counter_var_name, pos);
+        self.push(Instruction::PushAToValueStack, pos);
         // upper bound to A
         self.generate_expression_instructions_casting(
             upper_bound,
@@ -66,6 +67,9 @@ impl InstructionGenerator {
                 // upper bound to C
                 self.push(Instruction::PopValueStackIntoA, pos);
                 self.push(Instruction::CopyAToC, pos);
+                // lower bound to the counter
+                self.push(Instruction::PopValueStackIntoA, pos);
+                self.store_counter(&counter_var_name, pos);
                 // is step = 0 ?
                 self.push_load(Variant::VInteger(0), pos);
                 self.push(Instruction::CopyAToB, pos);
@@ -80,6 +84,9 @@ impl InstructionGenerator {
             None => {
                 // A to C (upper bound to C)
                 self.push(Instruction::CopyAToC, pos);
+                // lower bound to the counter
+                self.push(Instruction::PopValueStackIntoA, pos);
+                self.store_counter(&counter_var_name, pos);
                 self.push_load(Variant::VInteger(1), pos);
                 // A to D (step is in D)
                 self.push(Instruction::CopyAToD, pos);
